@@ -105,7 +105,10 @@ def run_case(case, ctx):
 						args += ['-l', lf, '--ldir', os.path.join(d, 'q')]
 					else:
 						args += ['-s', qsig]
-					r = run_cli(args)
+					if step.get('db_via_env'):
+						r = run_cli(args[2:], env={'GAMBIT_DB_PATH': dbdir})
+					else:
+						r = run_cli(args)
 					events.append('ok_query' if r.exit_code == 0 else 'fail')
 				elif t == 'cli_dist_usedb':
 					args = ['-d', dbdir, 'dist', '--use-db', '-o', out('csv'), '--no-progress']
@@ -299,8 +302,8 @@ def run_case(case, ctx):
 
 
 STEP = st.one_of(
-	st.builds(lambda c, f, s: {'t': 'cli_query', 'chan': c, 'fmt': f, 'strict': s}, st.sampled_from(['files', 'list', 'sig']),
-	          st.sampled_from(['csv', 'json', 'archive']), st.booleans()),
+	st.builds(lambda c, f, s, e: {'t': 'cli_query', 'chan': c, 'fmt': f, 'strict': s, 'db_via_env': e}, st.sampled_from(['files', 'list', 'sig']),
+	          st.sampled_from(['csv', 'json', 'archive']), st.booleans(), st.booleans()),
 	st.builds(lambda q: {'t': 'cli_dist_usedb', 'q': q}, st.sampled_from(['sig', 'files'])),
 	st.just({'t': 'cli_dist_mismatch'}),
 	st.builds(lambda f: {'t': 'cli_info', 'flag': f}, st.sampled_from(['', 'j', 'i', 'jp'])),
